@@ -246,6 +246,19 @@ impl ObjectReceiver {
                 ) as usize,
             };
 
+            if block_length == 0 {
+                // The source block number is outside of the block partitioning of the object:
+                // there is nothing to decode, and the block decoder must not be sized by
+                // the number of symbols of a regular block
+                log::warn!(
+                    "TSI={} TOI={} SBN {} is outside of the block partitioning of the object, skip the packet",
+                    self.tsi,
+                    self.toi,
+                    payload_id.sbn
+                );
+                return Ok(());
+            }
+
             if block_length > self.max_size_allocated
                 || (self.nb_allocated_blocks >= 2
                     && self.total_allocated_blocks_size + block_length > self.max_size_allocated)
